@@ -27,6 +27,23 @@ type Mutant struct {
 	New   string `json:"new"`
 }
 
+// identSwaps: domain-specific replacements of one identifier (or selector name) by a sibling
+// of the same type: error class, result status, predicate outcome, wrap/unwrap mode.
+var identSwaps = map[string][]string{
+	"returnVerboseError": {"returnError"}, "returnError": {"returnVerboseError"},
+	"ErrVerbose": {"ErrExecution"}, "ErrExecution": {"ErrVerbose"},
+	"statusFailed": {"statusNotFound", "statusOK"}, "statusNotFound": {"statusOK", "statusFailed"}, "statusOK": {"statusNotFound"},
+	"predTrue": {"predFalse", "predUnknown"}, "predFalse": {"predTrue", "predUnknown"}, "predUnknown": {"predFalse", "predTrue"},
+	"autoUnwrap": {"autoWrap"}, "autoWrap": {"autoUnwrap"},
+	"executeItemOptUnwrapResult": {"executeItemOptUnwrapResultSilent"}, "executeItemOptUnwrapResultSilent": {"executeItemOptUnwrapResult"},
+	"UnaryPlus": {"UnaryMinus"}, "UnaryMinus": {"UnaryPlus"}, "ConstTrue": {"ConstFalse"}, "ConstFalse": {"ConstTrue"},
+	"BinaryAnd": {"BinaryOr"}, "BinaryOr": {"BinaryAnd"}, "BinaryLess": {"BinaryLessOrEqual"}, "BinaryGreater": {"BinaryGreaterOrEqual"},
+	"MaxInt32": {"MaxInt64"}, "MinInt32": {"MinInt64"}, "MaxInt64": {"MaxInt32"}, "MinInt64": {"MinInt32"},
+	"Floor": {"Ceil"}, "Ceil": {"Floor"}, "Round": {"Trunc"}, "Trunc": {"Round"},
+	"UTC": {"Local"}, "first": {"last"}, "last": {"first"}, "left": {"right"}, "right": {"left"}, "lhs": {"rhs"}, "rhs": {"lhs"},
+	"indexFrom": {"indexTo"}, "indexTo": {"indexFrom"},
+}
+
 var swaps = map[token.Token][]token.Token{
 	token.LSS: {token.LEQ}, token.LEQ: {token.LSS}, token.GTR: {token.GEQ}, token.GEQ: {token.GTR},
 	token.EQL: {token.NEQ}, token.NEQ: {token.EQL}, token.LAND: {token.LOR}, token.LOR: {token.LAND},
@@ -106,6 +123,9 @@ func list(root, rel string) []Mutant {
 					add("if:negate", x.Cond.Pos(), x.Cond.End(), "!("+text(x.Cond.Pos(), x.Cond.End())+")")
 				}
 			case *ast.Ident:
+				for _, r := range identSwaps[x.Name] {
+					add("ident:"+x.Name+"->"+r, x.Pos(), x.End(), r)
+				}
 				if x.Name == "true" {
 					add("bool:true->false", x.Pos(), x.End(), "false")
 				} else if x.Name == "false" {
